@@ -12,7 +12,8 @@ from .common import Corr, f2hex, hex2f, frac2s, flist, parse_list
 
 ID = "C06"
 LEAN_MODULES = ["TempestVerif.Props.C06", "TempestVerif.Lemmas.CeilComb", "TempestVerif.Props.C06Loop", "TempestVerif.Props.C06X",
-                "TempestVerif.Props.C06Sites", "TempestVerif.Props.C06Fp", "TempestVerif.Props.C06Pipeline"]
+                "TempestVerif.Props.C06Sites", "TempestVerif.Props.C06Fp", "TempestVerif.Props.C06Pipeline",
+                "TempestVerif.Props.C06Source"]
 RULE = ("systematic: generated (n, w) x the COMPLETE finite partition of the offset u0 for that pair — every breakpoint frac(n*C_j), "
         "breakpoint +-2^-40, its two float neighbours, midpoints of consecutive breakpoints, 0.0 and nextafter(1,0); the REAL "
         "tempest.tools.systematic_resample is run with numpy.random.random replaced by u0. "
@@ -1080,6 +1081,13 @@ def oracle_iteration(scheme, vv, sd, n_iter):
                 if not (lo - tol <= Fraction(u) < cdf[i] + tol):
                     return f"{where}: draw {k}: uniform {u!r} gave index {i}, whose cell is [{float(lo)!r}, {float(cdf[i])!r})"
     return None
+
+
+def translators():
+    """G14: Gen/ResampleSrc.lean is recompiled from /repo's tools.py / steps/resample.py on every run; Props/C06Source.lean
+       proves that Model.Resample unfolds to the generated terms"""
+    from translate import g14_resample
+    return [g14_resample.generate()]
 
 
 def correspond(tier):
